@@ -10,8 +10,10 @@ pub mod vspec {
 #[allow(unused_imports)] use crate::traits::*;
 #[allow(unused_imports)] use crate::*;
 pub use crate::vfield::*;
+pub use crate::vgroup::*;
 pub use crate::vstdx::*;
 verus! {
+//@module_serves ALL
 
 pub type FF<C> = <<C as Ciphersuite>::Group as Group>::Field;
 pub type GG<C> = <C as Ciphersuite>::Group;
@@ -114,6 +116,44 @@ pub proof fn lemma_scalars_step<C: Ciphersuite>(s: Seq<Identifier<C>>)
     requires s.len() > 0
     ensures scalars::<C>(s).drop_last() =~= scalars::<C>(s.drop_last()), scalars::<C>(s).last() == s.last().0.0, scalars::<C>(s).len() == s.len()
 {}
+
+
+// ---------------------------------------------------------------------------------------------------
+// keys.rs vocabulary
+pub open spec fn spec_validate_num_of_signers<C: Ciphersuite>(min_signers: u16, max_signers: u16) -> Result<(), Error<C>> {
+    if min_signers < 2 { Err(Error::InvalidMinSigners) }
+    else if max_signers < 2 { Err(Error::InvalidMaxSigners) }
+    else if min_signers > max_signers { Err(Error::InvalidMinSigners) }
+    else { Ok(()) }
+}
+
+// VSS right-hand side  sum_k C_k * (x^k * pw), folded left to right (RFC 9591 appendix C.2 vss_verify)
+pub open spec fn spec_vss<C: Ciphersuite>(c: Seq<Element<C>>, x: Scalar<C>, pw: Scalar<C>) -> Element<C> decreases c.len()
+{ if c.len() == 0 { e0::<C>() } else { eadd::<C>(emul::<C>(c[0], pw), spec_vss::<C>(c.drop_first(), x, smul::<C>(x, pw))) } }
+
+pub open spec fn comm_vals<C: Ciphersuite>(c: Seq<crate::keys::CoefficientCommitment<C>>) -> Seq<Element<C>> { c.map_values(|k: crate::keys::CoefficientCommitment<C>| k.0.0) }
+
+
+// n * 1 in the scalar field (RFC 9591: identifiers are integers 1..max_participants mapped to scalars)
+pub open spec fn nat_scalar<C: Ciphersuite>(n: nat) -> Scalar<C> decreases n
+{ if n == 0 { s0::<C>() } else { sadd::<C>(nat_scalar::<C>((n - 1) as nat), s1::<C>()) } }
+
+// commitments to a coefficient vector
+pub open spec fn spec_commitment<C: Ciphersuite>(a: Seq<Scalar<C>>) -> Seq<crate::keys::CoefficientCommitment<C>>
+{ a.map_values(|s: Scalar<C>| crate::keys::CoefficientCommitment::<C>(crate::serialization::SerializableElement::<C>(gmul::<C>(s)))) }
+
+// T9: k consecutive draws of `Field::random` from the stream, starting at `pos`
+pub open spec fn spec_draws<C: Ciphersuite>(stream: spec_fn(nat) -> u8, pos: nat, k: nat) -> Seq<Scalar<C>> decreases k
+{ if k == 0 { Seq::empty() } else { seq![FF::<C>::rand_val(stream, pos)] + spec_draws::<C>(stream, pos + FF::<C>::rand_used(stream, pos), (k - 1) as nat) } }
+pub open spec fn spec_draws_end<C: Ciphersuite>(stream: spec_fn(nat) -> u8, pos: nat, k: nat) -> nat decreases k
+{ if k == 0 { pos } else { spec_draws_end::<C>(stream, pos + FF::<C>::rand_used(stream, pos), (k - 1) as nat) } }
+
+pub proof fn lemma_draws_len<C: Ciphersuite>(stream: spec_fn(nat) -> u8, pos: nat, k: nat)
+    ensures spec_draws::<C>(stream, pos, k).len() == k
+    decreases k
+{ if k > 0 { lemma_draws_len::<C>(stream, pos + FF::<C>::rand_used(stream, pos), (k - 1) as nat); } }
+
+pub open spec fn default_header<C: Ciphersuite>() -> Header<C> { Header { version: 0, ciphersuite: (), phantom: core::marker::PhantomData } }
 
 } // verus!
 }
